@@ -23,6 +23,8 @@
 #include <stdio.h>
 #include <stdlib.h>
 #include <string.h>
+#include <fcntl.h>
+#include <sys/mman.h>
 #include <sys/time.h>
 #include <unistd.h>
 
@@ -73,6 +75,23 @@ static void arm_timer(int seconds)
   memset(&it, 0, sizeof(it));
   it.it_value.tv_sec = seconds;
   setitimer(ITIMER_VIRTUAL, &it, NULL);
+}
+
+// progress cell shared with the orchestrator (mmap of $VDRV_PROGRESS)
+static volatile uint32_t *progress = NULL;
+static uint32_t progress_dummy[16];
+
+static void progress_init()
+{
+  progress = progress_dummy;
+  const char *fn = getenv("VDRV_PROGRESS");
+  if (fn == NULL) return;
+  int fd = open(fn, O_RDWR | O_CREAT, 0600);
+  if (fd < 0) return;
+  if (ftruncate(fd, 64) != 0) { close(fd); return; }
+  void *m = mmap(NULL, 64, PROT_READ | PROT_WRITE, MAP_SHARED, fd, 0);
+  close(fd);
+  if (m != MAP_FAILED) { progress = (volatile uint32_t *)m; }
 }
 
 static std::string hexenc(const void *p, size_t n)
@@ -338,6 +357,158 @@ static void do_disr(const std::vector<std::string> &f)
   wipe_bytes(dmem, addr, bytes.size());
 }
 
+
+
+static void do_walk(const std::vector<std::string> &f)
+{
+  if (f.size() < 6) { fprintf(pout, "err=args\n"); return; }
+  int ci = find_cpu(f[1]);
+  disasm_fn_t fn = find_disasm(f[1]);
+  if (ci < 0 || fn == NULL) { fprintf(pout, "err=cpu\n"); return; }
+  uint32_t start = strtoul(f[2].c_str(), NULL, 0);
+  uint32_t end = strtoul(f[3].c_str(), NULL, 0);
+  uint32_t addr = strtoul(f[4].c_str(), NULL, 0);
+  std::string bytes = hexdec(f[5]);
+  if (dmem == NULL) { dmem = new Memory(); }
+  dmem->endian = cpu_list[ci].default_endian;
+  put_bytes(dmem, addr, bytes);
+  std::string steps;
+  char tmp[64];
+  char *text = (char *)malloc(128);
+  exit_called = 0;
+  cap_begin();
+  in_request = 1;
+  if (setjmp(exit_jmp) == 0)
+  {
+    uint64_t a = start;
+    int guard = 0;
+    while (a <= end && guard++ < 200000)
+    {
+      int c1 = 0, c2 = 0;
+      int n = fn(dmem, (uint32_t)a, text, 128, cpu_list[ci].flags, &c1, &c2);
+      snprintf(tmp, sizeof(tmp), "%x:%d;", (uint32_t)a, n);
+      steps += tmp;
+      if (n <= 0) break;
+      a += n;
+    }
+  }
+  in_request = 0;
+  cap_end(16);
+  free(text);
+  fprintf(pout, "exit=%d\tsteps=%s\n", exit_called, steps.c_str());
+  wipe_bytes(dmem, addr, bytes.size());
+}
+
+// ---- sweep ------------------------------------------------------------
+// sweep <cpu> <addr> <first> <count> <tailhex> <mode> <maxlen>
+//   mode bit0: return the text of every pattern; bit1: locality re-decodes.
+// Every pattern p gives the byte string [p>>8, p&255] + tail at <addr>.
+
+static std::string enc_text(const char *t, size_t n)
+{
+  bool raw = true;
+  for (size_t i = 0; i < n; i++)
+  {
+    unsigned char c = (unsigned char)t[i];
+    if (c < 0x20 || c == 0x7f || c == '\\') { raw = false; break; }
+  }
+  if (raw) { return std::string("r") + std::string(t, n); }
+  return std::string("h") + hexenc(t, n);
+}
+
+static void do_sweep(const std::vector<std::string> &f)
+{
+  if (f.size() < 8) { fprintf(pout, "err=args\n"); return; }
+  int ci = find_cpu(f[1]);
+  disasm_fn_t fn = find_disasm(f[1]);
+  if (ci < 0 || fn == NULL) { fprintf(pout, "err=cpu\n"); return; }
+  uint32_t addr = strtoul(f[2].c_str(), NULL, 0);
+  uint32_t first = strtoul(f[3].c_str(), NULL, 0);
+  uint32_t count = strtoul(f[4].c_str(), NULL, 0);
+  std::string tail = hexdec(f[5]);
+  int mode = atoi(f[6].c_str());
+  int maxlen = atoi(f[7].c_str());
+  int unit = cpu_list[ci].bytes_per_address;
+  if (dmem == NULL) { dmem = new Memory(); }
+  dmem->endian = cpu_list[ci].default_endian;
+  size_t total = 2 + tail.size();
+  std::string rows;
+  std::string bad;
+  std::map<int, int> hist;
+  char tmp[96];
+  char *text = (char *)malloc(128);
+  char *text2 = (char *)malloc(128);
+  exit_called = 0;
+  cap_begin();
+  in_request = 1;
+  volatile uint32_t p = first;
+  if (setjmp(exit_jmp) != 0)
+  {
+    // exit() inside a decoder: record and continue with the next pattern
+    snprintf(tmp, sizeof(tmp), "%u:exit;", (unsigned)p);
+    bad += tmp;
+    p = p + 1;
+  }
+  for (; p < first + count; p = p + 1)
+  {
+    progress[0] = p; progress[1] = 1;
+    std::string bytes;
+    bytes += (char)(p >> 8);
+    bytes += (char)(p & 0xff);
+    bytes += tail;
+    put_bytes(dmem, addr, bytes);
+    memset(text, 0x7e, 128);
+    int cmin = 0, cmax = 0;
+    int n = fn(dmem, addr, text, 128, cpu_list[ci].flags, &cmin, &cmax);
+    bool term = memchr(text, 0, 128) != NULL;
+    size_t tl = term ? strlen(text) : 128;
+    hist[n]++;
+    if (!term) { snprintf(tmp, sizeof(tmp), "%u:unterminated;", (unsigned)p); bad += tmp; }
+    if (n < unit) { snprintf(tmp, sizeof(tmp), "%u:short:%d;", (unsigned)p, n); bad += tmp; }
+    else if (maxlen > 0 && n > maxlen) { snprintf(tmp, sizeof(tmp), "%u:long:%d;", (unsigned)p, n); bad += tmp; }
+    if ((mode & 2) && n >= 1 && (size_t)n < total)
+    {
+      for (int alt = 0; alt < 2; alt++)
+      {
+        progress[1] = 2 + alt;
+        std::string b2 = bytes;
+        for (size_t i = n; i < total; i++) { b2[i] = alt == 0 ? (char)0xff : (char)(bytes[i] ^ 0x5a); }
+        put_bytes(dmem, addr, b2);
+        memset(text2, 0x7e, 128);
+        int c1 = 0, c2 = 0;
+        int n2 = fn(dmem, addr, text2, 128, cpu_list[ci].flags, &c1, &c2);
+        bool term2 = memchr(text2, 0, 128) != NULL;
+        if (n2 != n)
+        {
+          snprintf(tmp, sizeof(tmp), "%u:nonlocal-len:%d:%d;", (unsigned)p, n, n2); bad += tmp;
+          break;
+        }
+        if (term && term2 && strcmp(text, text2) != 0)
+        {
+          snprintf(tmp, sizeof(tmp), "%u:nonlocal-text:%d;", (unsigned)p, n); bad += tmp;
+          break;
+        }
+      }
+    }
+    if (mode & 1)
+    {
+      snprintf(tmp, sizeof(tmp), "%d:", n);
+      rows += tmp;
+      rows += enc_text(text, tl);
+      rows += '\x1f';
+    }
+    wipe_bytes(dmem, addr, total);
+  }
+  in_request = 0;
+  progress[1] = 0;
+  std::string out = cap_end(256);
+  free(text);
+  free(text2);
+  fprintf(pout, "count=%u\tunit=%d\thist=", count, unit);
+  for (std::map<int, int>::iterator it = hist.begin(); it != hist.end(); ++it) { fprintf(pout, "%d:%d;", it->first, it->second); }
+  fprintf(pout, "\tbad=%s\trows=%s\n", bad.c_str(), rows.c_str());
+}
+
 // ---- sim ------------------------------------------------------------
 
 static Memory *smem = NULL;
@@ -490,6 +661,7 @@ int main(int argc, char *argv[])
   real_stdout = nul;
   stdout = nul;
   signal(SIGVTALRM, on_timer);
+  progress_init();
   naken_asm_verif_label_cb = label_cb;
 
   char *line = NULL;
@@ -505,6 +677,8 @@ int main(int argc, char *argv[])
     else if (f[0] == "asm") { do_asm(f); }
     else if (f[0] == "dis") { do_dis(f); }
     else if (f[0] == "disr") { do_disr(f); }
+    else if (f[0] == "sweep") { do_sweep(f); }
+    else if (f[0] == "walk") { do_walk(f); }
     else if (f[0] == "sim") { do_sim(f); }
     else if (f[0] == "cpus")
     {
